@@ -180,6 +180,7 @@ struct World {
     Hash evh;                   // event hash (plan, outcomes, digests, disk events)
     uint64_t getters;
     std::string arg_class;      // set by the op being executed
+    std::string misdirected_target; // id of the entity the misdirected delete call designated
     std::string expect_unchanged; // oracle to raise if the call the op made (which designates nothing the addressed container holds) changed the document
     std::string must_succeed;   // oracle to raise if the in-contract call the op is about to make on a writable file throws
     std::set<uint64_t> state_hashes, triples;
